@@ -865,7 +865,15 @@ func (r *runningStep) provideEnablingInput(input map[string]any) error {
 	}
 	// Check to make sure it's enabled.
 	// This is an optional field, so no input means enabled.
-	enabled := input["enabled"] == nil || input["enabled"] == true
+	// A constant written in the workflow file arrives as text ("true"), not as a bool, so unserialize the value.
+	enabled := true
+	if input["enabled"] != nil {
+		unserializedEnabled, err := schema.NewBoolSchema().Unserialize(input["enabled"])
+		if err != nil {
+			return fmt.Errorf("invalid value for the 'enabled' field (%w)", err)
+		}
+		enabled = unserializedEnabled.(bool)
+	}
 	r.enabledInputAvailable = true
 	// The step is not waiting for input anymore, even if it has not picked the input up yet.
 	if r.state == step.RunningStepStateWaitingForInput && r.currentStage == StageIDEnabling {
